@@ -71,13 +71,14 @@ CHECKS = {
         "round's root (reachability computed in TLA+ over the shipped node graph), that pruning deletes only nodes recorded dead "
         "below the prune version, and that every retained root stays resolvable after every prune delete batch, including "
         "interrupted and re-run prunes.",
-   note="prune batch boundary (1000 keys) is exercised only by thorough-tier histories with many dead nodes",
+   note="a pruning of more than 1000 dead nodes (several delete batches) is part of the quick tier (GenRoundsBulk big)",
    technique="TLA+ reachability invariants (MPTRounds.tla / MPTPersist.tla) checked by TLC on real per-write-element traces"),
  "C17": dict(level="model_checking", ref="DESIGN.md §5 C17",
    text="MPTSync.tla defines, on the canonical term, the frontier of absent nodes and the lookup result on a partial store; TLC "
         "checks the oracle and emits every (content, removed node set) of its scope (2080 plans quick); each plan and seeded random "
         "larger ones are executed on the real trie (HasMissingNodes, GetAllMissingNodes, GetMissingNodeKeys, lookups of all paths, "
-        "MergeDB repair at the same/another version from donors in map order, donor byte-for-byte comparison) and validated by TLC.",
+        "repair through MergeDB or MergeState at the same/another version from donors in map order, donor byte-for-byte comparison) "
+        "and validated by TLC; three large-scope plans (donor stores of several hundred nodes, several hundred scattered absent leaves).",
    note="nodes are named by position; tries with mixed node origins are included",
    technique="TLA+ frontier/lookup oracle (MPTSync.tla) + TLC-enumerated fault sets replayed into the Go code + TLC trace validation"),
  "C16": dict(level="model_checking", ref="DESIGN.md §5 C16",
@@ -105,7 +106,9 @@ CHECKS = {
    note="known finding C11-SharedContent: content-addressed nodes shared between positions are garbage-collected while referenced",
    technique="TLA+ resolvability invariant checked by TLC on per-write-element traces of the real trie/storage adapter"),
  "C13": dict(level="model_checking", ref="DESIGN.md §5 C13",
-   text="Checkpoint / change batch / single commit (any level) / optional gc / Rollback or RollbackTrie scenarios: TLC checks root and "
+   text="Checkpoint (SaveRoot, or kept by the caller for RollbackTrie; with a history of earlier commits and gc passes) / change batch "
+        "(also with root / proofs read while uncommitted) / single commit (any level) / optional gc / Rollback or RollbackTrie scenarios, "
+        "from TLC (WMPT.tla: SaveRoot, Mark, Rollback) and a seeded generator: TLC checks root and "
         "weight equal the checkpoint's, the checkpoint root is resolvable, a reopened trie reports the checkpoint content, and no "
         "node that only the rolled-back commit added to storage remains.",
    note="exactly one commit between checkpoint and rollback; known finding C13-SharedContent",
@@ -114,8 +117,9 @@ CHECKS = {
    text="WMPTProof.tla transcribes the verifier (navigation by claimed weights, re-hash of the path) over structural hashes and an "
         "adversary with seven edit actions; TLC proves completeness and soundness for all tries/blocks/<=2 edits without "
         "re-weighting and refutes soundness with re-weighting; every explored tampering (103k quick) is applied to the real proof "
-        "bytes and submitted to the real VerifyBlockProof, plus byte-level tampering of larger tries; TLC judges each outcome.",
-   note="known finding C10-ReweightSiblings (format-level)",
+        "bytes and submitted to the real VerifyBlockProof, plus byte-level tampering of larger tries (incl. the deepest possible trie: "
+        "64 nested branches); weights scaled per plan; proofs are requested before the root hash is read; TLC judges each outcome.",
+   note="known findings C10-ReweightSiblings and C10-TypeConfusion (format-level)",
    technique="TLA+ adversary model checked by TLC + every TLC-explored tampering replayed on the real verifier + TLC trace validation"),
  "C12": dict(level="model_checking", ref="DESIGN.md §5 C12",
    text="WMPTPath.tla (one content, two observers) lets TLC enumerate every scenario of its scope - source content, collapse "
